@@ -53,6 +53,12 @@ type (
 	ServerConnectionProvider interface {
 		ConnectedServer() ServerConnection
 	}
+	// PlayerServerConnectionProvider is an optional interface of Providers that
+	// provides the currently connected server connection of any player.
+	// It is required to answer sub-channels that target another player's server.
+	PlayerServerConnectionProvider interface {
+		ConnectedServerOf(Player) ServerConnection
+	}
 	// ServerConnection represents a server connection for a player.
 	ServerConnection interface {
 		Name() string // Name of the server.
@@ -187,20 +193,32 @@ func (r *bungeeCordMessageResponder) prepareForwardMessage(in io.Reader) (forwar
 }
 
 func (r *bungeeCordMessageResponder) sendServerResponse(in []byte) {
-	if len(in) == 0 {
-		return
-	}
-	serverConn := r.ConnectedServer()
-	if serverConn == nil {
+	sendServerResponse(r.ConnectedServer(), in)
+}
+
+func sendServerResponse(serverConn ServerConnection, in []byte) {
+	if len(in) == 0 || serverConn == nil {
 		return
 	}
 	ch := Channel(serverConn.Protocol())
 	_ = serverConn.WritePacket(&plugin.Message{Channel: ch, Data: in})
 }
 
+// connectedServerOf returns the server connection of the given player, or nil.
+func (r *bungeeCordMessageResponder) connectedServerOf(player Player) ServerConnection {
+	if p, ok := r.Providers.(PlayerServerConnectionProvider); ok {
+		return p.ConnectedServerOf(player)
+	}
+	if player == r.player {
+		return r.ConnectedServer()
+	}
+	return nil
+}
+
 func (r *bungeeCordMessageResponder) processForwardToPlayer(in io.Reader) {
 	r.readPlayer(in, func(player Player) {
-		r.sendServerResponse(r.prepareForwardMessage(in))
+		// deliver to the server the target player is connected to
+		sendServerResponse(r.connectedServerOf(player), r.prepareForwardMessage(in))
 	})
 }
 
@@ -437,7 +455,7 @@ func (r *bungeeCordMessageResponder) processKickRaw(in io.Reader) {
 
 func (r *bungeeCordMessageResponder) processGetPlayerServer(in io.Reader) {
 	r.readPlayer(in, func(player Player) {
-		s := r.ConnectedServer()
+		s := r.connectedServerOf(player) // the server of the player asked about
 		if s == nil {
 			return
 		}
